@@ -748,12 +748,14 @@ func (m *Nitro) GC() {
 		m.collectDead()
 		verifYield(vpGCUnlock, unsafe.Pointer(m))
 		atomic.CompareAndSwapInt32(&m.isGCRunning, 1, 0)
+		verifYield(vpGCRecheck, unsafe.Pointer(m))
 		// A Close that retired its snapshot while the flag was held found it
 		// taken and gave up; collect on its behalf instead of waiting for a
 		// later Close or an explicit GC.
 		if !m.hasCollectableSnapshot() {
 			break
 		}
+		verifYield(vpGCTryLock, unsafe.Pointer(m))
 	}
 }
 
